@@ -92,6 +92,14 @@ def cases(ctx):
         if rng.random() < 0.15:
             tables[rng.randrange(ns)] = [list(r) for r in p]           # one structure complete
         names = ['ATOM'] + ['ATOM%d' % i for i in range(1, ns)]
+        if f % 2 == 1:
+            # user-chosen table names, in an order that is neither alphabetical nor reverse alphabetical: the structures
+            # are the i-th input, whatever their tables are called
+            names = rng.sample(['wildtype', 'mutant', 'apo', 'Zeta', 'b2', 'ATOM9', 'model_10', 'holo'], ns)
+            while ns > 2 and (names == sorted(names) or names == sorted(names, reverse=True)):
+                rng.shuffle(names)
+            if ns == 2 and names == sorted(names):
+                names.reverse()
         dbj = db_json(list(zip(names, tables)))
         # every match-key subset through BOTH get_intersection() and intersect(match=...)
         for m in subsets + extra_matches:
@@ -133,7 +141,9 @@ def obj_of(c):
             _OBJ.clear()
         tables = [[[unjval(v) for v in r] for r in t['rows']] for t in c['db']['tabs']]
         lines = [[B.atom_line(r) for r in t] for t in tables]
-        db = call(lambda: many2sql(lines))
+        tnames = [t['name'] for t in c['db']['tabs']]
+        default = tnames == ['ATOM'] + ['ATOM%d' % i for i in range(1, len(tnames))]
+        db = call(lambda: many2sql(lines) if default else many2sql(lines, tablenames=list(tnames)))
         for nm, rows in zip([t['name'] for t in c['db']['tabs']], tables):
             B.check_parse(db, rows, tn=nm)
         _OBJ[k] = db
